@@ -265,3 +265,30 @@ def reset_metrics():
     except Exception:  # noqa
         pass
     Metrics.collecting = False
+
+
+def build_box(dims, vals, pos=0):
+    """Dense box with *concrete* coordinates 0..dim-1 at every level and the given (symbolic) leaf values, built with the
+    Fiber constructor so a value 0 stays an explicit default and an all-zero row stays an all-default sub-fiber."""
+    if len(dims) == 1:
+        n = dims[0]
+        return Fiber(list(range(n)), list(vals[pos:pos + n])), pos + n
+    kids = []
+    for _ in range(dims[0]):
+        k, pos = build_box(dims[1:], vals, pos)
+        kids.append(k)
+    return Fiber(list(range(dims[0])), kids), pos
+
+
+def box_size(dims):
+    n = 1
+    for d in dims:
+        n *= d
+    return n
+
+
+RANK_IDS = ["N", "M", "K", "J"]
+
+
+def rank_ids_for(d):
+    return RANK_IDS[4 - d:]
